@@ -358,6 +358,11 @@ func (c *Cluster) checkRegion(e *Exec, spec *pb.RegionSpecifier, row []byte, nee
 		return nil, ExNotServing, name + " is not online"
 	}
 	e.Table = r.Table
+	if needRow && !r.Contains(row) && e.Nonce == 0 {
+		// an internal request of the client (establishment probe): not a user
+		// request, answered as HBase would
+		return nil, ExWrongRegion, fmt.Sprintf("Requested row out of range for row %q", row)
+	}
 	if needRow && !r.Contains(row) {
 		c.Violate("C01 routing: row %q sent to region %q [%q,%q) which never contained it (server %s)", row, name, r.Start, r.Stop, srv.Addr)
 		return nil, ExWrongRegion, fmt.Sprintf("Requested row out of range for row %q", row)
@@ -879,12 +884,12 @@ func (c *Cluster) execMulti(req *Request, m *pb.MultiRequest,
 				for _, y := range ras {
 					for _, b := range y.acts {
 						b.e.Err, b.e.ErrLevel = rule.Class, "call"
-						if b.e != a.e {
-							c.logExec(b.e)
-						}
+						c.logExec(b.e)
 					}
 				}
-				return hdrExc(a.e, rule.Class, rule.Msg)
+				me := c.newExec(req, "Multi")
+				me.Multi = multiSeq
+				return hdrExc(me, rule.Class, rule.Msg)
 			}
 		}
 	}
@@ -896,13 +901,8 @@ func (c *Cluster) execMulti(req *Request, m *pb.MultiRequest,
 				a.e.Err, a.e.ErrLevel = class, "region"
 				c.logExec(a.e)
 			}
-			var e0 *Exec
-			if len(x.acts) > 0 {
-				e0 = x.acts[0].e
-			} else {
-				e0 = &Exec{}
-			}
-			rar.Exception = excPair(class, c.excMsg(class, msg, e0))
+			e0 := &Exec{Seq: multiSeq}
+			rar.Exception = excPair(class, c.excMsg(class, msg+" region="+x.name, e0))
 		}
 		if x.region == nil {
 			fail(x.class, x.msg)
